@@ -365,6 +365,19 @@ impl Parsing {
         } else if crate::build::age_xot(&mut xot, doc) > 0 {
             ctx.count("parsed_into_aged_xot");
         }
+        // a Xot that has just REJECTED a document (the same text, cut off after two thirds): prefixes, default
+        // namespaces, xml:id values and names of the abandoned parse must not reach the next one
+        if stress && doc.structural_hash() % 5 == 1 {
+            let mut cut = r.text.len() * 2 / 3;
+            while cut > 0 && !r.text.is_char_boundary(cut) {
+                cut -= 1;
+            }
+            let broken = format!("{}<", &r.text[..cut]);
+            match guard(|| xot.parse(&broken)) {
+                Ok(Err(_)) => ctx.count("parsed_after_a_rejected_parse_on_the_same_xot"),
+                _ => ctx.count("truncated_text_not_rejected"),
+            }
+        }
         // the parser merges adjacent character data and CDATA whatever the Xot's consolidation switch says
         if doc.structural_hash() % 7 == 2 {
             xot.set_text_consolidation(false);
